@@ -3,92 +3,102 @@
 ENGINES = [
     {"name": "parser-state-explorer", "path": "mc/parser_engine.py",
      "serves_properties": ["C01", "C02", "C03", "C04", "C07", "C13", "C18", "C20"],
-     "kind_free_text": "explicit-state BFS over the real Parser (state = shortest word), reference PDA + frozen table as oracle"},
+     "kind_free_text": "explicit-state BFS over the real Parser (state = shortest word), grammar-directed products (mc/validgen.py), "
+                       "reference PDA + frozen table (mc/refsieve) as oracle"},
     {"name": "filterset-explorer", "path": "mc/factory_engine.py", "serves_properties": ["C06", "C11", "C12", "C19"],
-     "kind_free_text": "explicit-state BFS over FiltersSet operation histories + finite products of definitions x values"},
+     "kind_free_text": "explicit-state BFS over FiltersSet operation histories + finite products of definitions x values, reference list model"},
     {"name": "wire-explorer", "path": "mc/wire_engine.py",
      "serves_properties": ["C05", "C08", "C09", "C10", "C14", "C15", "C16", "C17"],
-     "kind_free_text": "deviation-bounded DFS / finite products of client operations against an executable RFC 5804 reference server over a virtual socket"},
+     "kind_free_text": "deviation-bounded DFS / finite products of client operations against an executable RFC 5804 reference server "
+                       "(mc/refms.py) over a virtual socket"},
 ]
 
-_PARSER_NOTE = ("trusted base: reference lexer/PDA and frozen table in /verif/mc/refsieve (calibrated against the suite's pinned "
-                "verdicts), CPython; bounded: word length per scenario, string contents of the alphabets")
+_PARSER_NOTE = ("trusted base: reference lexer/PDA and frozen table in /verif/mc/refsieve (calibrated at setup against the suite's pinned "
+                "verdicts), CPython; bounded: word length per scenario, nesting depth, string contents of the alphabets; see evidence for the bounds completed")
+_WIRE_NOTE = ("trusted base: reference RFC 5804 server / strict command parser / virtual socket in /verif/mc/refms.py, CPython; no real network, "
+              "TLS or timers (sockets and ssl are shimmed inside sievelib.managesieve only)")
+_FACTORY_NOTE = ("trusted base: reference list model / reference Sieve validator in /verif/mc (factory_engine.py, refsieve), CPython; bounded: history "
+                 "depth, definition pool, value alphabets")
+
+
+def _b(engine, technique, text, note, ref):
+    return dict(engine=engine, technique=technique, text=text, note=note, design_ref=ref)
+
+
+P, W, F = "parser-state-explorer", "wire-explorer", "filterset-explorer"
 
 BUILT = {
-    "C01": dict(engine="parser-state-explorer", technique="explicit-state BFS over token words on the real parser vs reference PDA (bounded exhaustive)",
-                text="every word up to the scenario depth over alphabets covering every token class, command and tag is executed on the real "
-                     "Parser and judged against an independent RFC 5228 recogniser + frozen table; all layouts for state representatives",
-                note=_PARSER_NOTE, design_ref="3 C01"),
+    "C01": _b(P, "explicit-state BFS over token words on the real parser vs reference PDA + exhaustive grammar-directed products and single-token edits",
+              "every word up to the scenario depth over alphabets covering every token class, command and tag (with and without require), every nested test "
+              "expression to depth 3/4, every tag subset and order of every command, every single-token edit of the valid forms, every comment body up to "
+              "a length, all under several layouts, is executed on the real Parser and judged by an independent RFC 5228 recogniser + frozen table; the "
+              "state abstraction is audited by an undeduplicated one-step bisimulation run", _PARSER_NOTE, "3 C01, 8"),
+    "C02": _b(P, "explicit-state BFS + exhaustive byte-edit neighbourhoods + pumped families + reuse differential; step-budget and watchdog oracle",
+              "every explored word, every single-byte edit / truncation of a corpus (bytes, str, parse_file; fresh and reused parser), pumped families to "
+              "2^13/2^16 and every accepted form re-parsed on a parser left dirty by a refused script must end in True/False within 3*len+16 lexer steps, "
+              "never raise, and carry a well-formed error / error_pos / result", _PARSER_NOTE + "; time inside one regex match is only caught by the watchdog", "3 C02"),
+    "C03": _b(P, "explicit-state BFS + grammar-directed products; token-conservation and tree-equality oracle vs reference generic tree; reuse differential",
+              "for every accepted word the canonical tree of Parser.result must contain exactly the source's tokens (position-unique values) and equal the tree "
+              "built by the independent RFC 5228 section 8.2 recogniser; the same tree must come out of a reused parser", _PARSER_NOTE, "3 C03"),
+    "C04": _b(P, "explicit-state BFS accepted states + exhaustive products of quoting-edge values x slot kinds + valid forms (also upper-case, repeated slots); print/re-parse/re-print oracle",
+              "every accepted word, every generated valid or irregular-but-accepted form and every string of length <= 3/4 over a quoting alphabet (every "
+              "multi-line body of <= 2/3 lines) in every slot kind is serialised with tosieve(), re-parsed (tree equality) and re-serialised (byte fixed point)",
+              _PARSER_NOTE, "3 C04"),
+    "C05": _b(W, "exhaustive enumeration of recv() segmentations (all 1-/2-/3-cut placements, byte caps) x bounded-exhaustive reply grammar, differential vs unsegmented run",
+              "every operation (incl. connect with and without STARTTLS and the emulated rename) x every reply of the bounded reply grammar x every single cut, "
+              "every pair (short replies), caps 1/2/3/7/64, each followed by two sentinel operations; all observables must equal the unsegmented baseline",
+              _WIRE_NOTE, "3 C05"),
+    "C06": _b(F, "exhaustive product of definition kinds x hostile values + explicit-state BFS over editing histories; reference strict validator and structure-preservation oracle",
+              "every condition/action kind (all fileinto tag orders, all vacation tag subsets, numeric boundary values) x every value up to the length bound; "
+              "the script must be accepted, strictly valid, begin with a covering require, and keep the structure of the benign-value script with every "
+              "literal decoding to the supplied value; histories over a rich pool for the require line", _FACTORY_NOTE, "3 C06"),
+    "C07": _b(P, "explicit-state BFS incl. no-require scenarios + valid-form products; independent walk with frozen extension table + exhaustive require-removal re-runs (fresh and reused parser)",
+              "every accepted word is walked against the frozen extension table; every valid word is re-run with each needed extension removed, on a fresh "
+              "parser and on one that has just accepted the full script, and must be rejected with the exact 'extension not loaded' message", _PARSER_NOTE, "3 C07"),
+    "C08": _b(W, "exhaustive product of operations x hostile argument strings + sweep of every argument length; strict RFC 5804 command parser on the captured bytes",
+              "every string up to the length bound over a hostile alphabet plus look-alikes in every argument position and every argument length in "
+              "0..9000/70000; the bytes written must parse as exactly one command of the intended verb decoding to the caller's values", _WIRE_NOTE, "3 C08"),
+    "C09": _b(W, "exhaustive product of operations x status reply shapes, ordered pairs of replies on one client, single NO/BYE fault at each step of multi-step operations",
+              "every operation x every status reply shape; every pair of shapes on the same client; NO/BYE at each step of connect (with/without STARTTLS) and "
+              "emulated rename; result, errcode, errmsg, unread bytes and exception class are judged against the reply", _WIRE_NOTE, "3 C09"),
+    "C10": _b(W, "exhaustive call histories over the introspected public API x handshake fault placements x capability sets x handshake OK forms; monitor automaton over plain/TLS write logs",
+              "every public method before connect, after connect and after a second connect (failing in 8 ways), under every single and pair of handshake "
+              "faults, TLS wrap failure, capability set and OK-line form; no script verb without AUTHENTICATE OK on that connection, no AUTHENTICATE before "
+              "TLS, mechanism from the post-TLS list", _WIRE_NOTE, "3 C10"),
+    "C11": _b(F, "explicit-state BFS over editing histories + exhaustive product of names/descriptions x marker pairs; save/load differential",
+              "every reachable set (history depth bound) and every name/description up to the length bound under 4 marker pairs (one non-ASCII) is "
+              "rendered, parsed, reloaded and compared; the reloaded rendering must be a fixed point", _FACTORY_NOTE, "3 C11"),
+    "C12": _b(F, "all operation sequences up to a bound without dedup + BFS with dedup over the real FiltersSet vs reference list model",
+              "every sequence of <= 3/4 of 62 events (str and bytes names) and a deduplicated BFS to depth 7/12; after every event return value, order, "
+              "flags, is_filter_disabled, filter_exists, wrapper structure and getfilter content are compared with the list model", _FACTORY_NOTE, "3 C12"),
+    "C13": _b(P, "exhaustive histories over an object pool; differential vs pristine forked interpreters",
+              "every history of <= 3/4 events on two reused parsers, fresh parsers and two FiltersSets (incl. from_parser_result on the shared parser and "
+              "mixed-case tags); each outcome is compared with the projection onto the same object run in a freshly forked pristine interpreter",
+              _FACTORY_NOTE, "3 C13"),
+    "C14": _b(W, "exhaustive product of initial stores x name sets x fault placements x bodies against an executable reference server; store-level invariant",
+              "19 initial stores x 7 bodies x 3 name sets (ASCII, NFC/NFD twins, case twins) x every single and pair of faults on the five verbs of the "
+              "emulation; the reference server's store before/after is judged (nothing lost, nothing else touched, True implies renamed)", _WIRE_NOTE, "3 C14"),
+    "C15": _b(W, "explicit-state BFS over operation histories (state = reference server store) x deviation-bounded DFS over server choices and recv cuts",
+              "all histories of 17 events to depth 3/4 from 4 stores with and without VERSION; every server choice (encodings, status text forms, quota/NO "
+              "outcomes, recv cuts) up to 1/2 deviations; each result must equal the reference server's own answer, no unread bytes, no protocol violation",
+              _WIRE_NOTE, "3 C15"),
+    "C16": _b(W, "exhaustive product of announced SASL lists x authmech x credentials x verdict x challenge realm; payload decoded and recomputed per mechanism RFC",
+              "all subsets/orders of 7 mechanism names x 7 authmech arguments x 6 credential triples x OK/NO, DIGEST-MD5 with and without realm alternating "
+              "in one process; selection rule, decoded PLAIN/LOGIN/OAUTHBEARER payloads and the recomputed RFC 2831 response are compared", _WIRE_NOTE, "3 C16"),
+    "C17": _b(W, "exhaustive product of look-alike bodies / name sets x every permitted encoding + read-size boundary sweep against the reference server's store",
+              "every body of <= 3/4 lines over the look-alike pool x line endings x final newline x literal/quoted; every set of <= 3/4 names x active "
+              "position x every per-name encoding; replies aligned at every offset around the 4096-byte read size", _WIRE_NOTE, "3 C17"),
+    "C18": _b(P, "explicit-state BFS and single-token edits under position-rich layouts; reference first-invalid-token positions + suffix re-runs",
+              "every rejected word / edited script is rendered in layouts mixing LF/CRLF, comments and multi-byte text; reported line / error_pos are compared "
+              "with the reference's first invalidating token (exact for tokens wrong in themselves, lower bound otherwise) and must not change under 4 suffixes",
+              _PARSER_NOTE, "3 C18"),
+    "C19": _b(F, "exhaustive product of supported forms x values with commas/spaces/brackets/non-ASCII; read-back differential on original / disabled / reloaded sets and after update-rename",
+              "every supported condition and action form (incl. duplicates) x every value up to the length bound x anyof/allof; get_filter_conditions/"
+              "actions/matchtype must equal what was supplied on the original, the disabled and the reloaded set", _FACTORY_NOTE, "3 C19"),
+    "C20": _b(P, "exhaustive product of generated argument definitions x explicit-state BFS over each definition's alphabet vs reference PDA built from the same definition; re-registration and derived-class sequences",
+              "every definition of the documented shape within the bounds is registered with add_commands under a fresh name; all uses up to the depth are "
+              "judged (accept exactly the allowed uses, arguments under the defined names, round trip, sibling stays unknown); names re-registered with "
+              "another definition and classes derived from registered ones must follow their own definition", _PARSER_NOTE, "3 C20"),
 }
-
-BUILT["C02"] = dict(engine="parser-state-explorer", technique="explicit-state BFS over token words + exhaustive byte-edit neighbourhoods + pumped families, step-budget oracle",
-                   text="every explored word (and every single-byte edit / truncation of a corpus of short scripts) must end in True/False within 3*len+16 lexer "
-                        "steps, never raise, and carry a well-formed error / error_pos / result",
-                   note=_PARSER_NOTE + "; regex-internal time is not observable by a step count", design_ref="3 C02")
-BUILT["C03"] = dict(engine="parser-state-explorer", technique="explicit-state BFS over token words; token-conservation and tree-equality oracle vs reference generic tree",
-                   text="for every accepted word the canonical tree of Parser.result must contain exactly the source's tokens (position-unique values) and "
-                        "equal the tree built by the independent RFC 5228 section 8.2 recogniser",
-                   note=_PARSER_NOTE, design_ref="3 C03")
-BUILT["C07"] = dict(engine="parser-state-explorer", technique="explicit-state BFS incl. no-require scenarios; independent walk with frozen extension table + exhaustive require-removal re-runs",
-                   text="every accepted word is walked against the frozen extension table; every valid word is re-run with each needed extension removed "
-                        "and must be rejected with the exact 'extension not loaded' message",
-                   note=_PARSER_NOTE, design_ref="3 C07")
-BUILT["C18"] = dict(engine="parser-state-explorer", technique="explicit-state BFS under position-rich layouts; reference first-invalid-token positions + suffix re-runs",
-                   text="every rejected word is rendered in layouts mixing LF/CRLF, comments and multi-byte text; reported line / error_pos are compared with "
-                        "the reference's first invalidating token (exact for tokens wrong in themselves, lower bound otherwise) and must not change under 4 suffixes",
-                   note=_PARSER_NOTE, design_ref="3 C18")
-
-BUILT["C04"] = dict(engine="parser-state-explorer", technique="explicit-state BFS accepted states + exhaustive products of quoting-edge values x slot kinds; print/re-parse/re-print oracle",
-                   text="every accepted word and every string of length <= 3/4 over a quoting alphabet (and every multi-line body of <= 2/3 lines) in every "
-                        "slot kind is serialised with tosieve(), re-parsed (tree equality) and re-serialised (byte fixed point)",
-                   note=_PARSER_NOTE, design_ref="3 C04")
-
-BUILT["C20"] = dict(engine="parser-state-explorer", technique="exhaustive product of generated argument definitions x explicit-state BFS over each definition's alphabet vs reference PDA built from the same definition",
-                   text="every definition of the documented shape within the bounds is registered with add_commands under a fresh name; all uses up to the "
-                        "depth are judged (accept exactly the allowed uses, arguments under the defined names, round trip, sibling stays unknown)",
-                   note=_PARSER_NOTE, design_ref="3 C20")
-
-_WIRE_NOTE = 'trusted base: reference RFC 5804 server / strict command parser / virtual socket in /verif/mc/refms.py, CPython; no real network, TLS or timers'
-BUILT["C05"] = dict(engine="wire-explorer", technique='exhaustive enumeration of recv() segmentations (all 1-/2-/3-cut placements, byte caps) x bounded-exhaustive reply grammar, differential vs unsegmented run',
-                   text='every operation x every reply of the bounded reply grammar x every single cut, every pair (short replies), caps 1/2/3/7/64, each followed by two sentinel operations; all observables must equal the unsegmented baseline',
-                   note=_WIRE_NOTE, design_ref='3 C05')
-BUILT["C08"] = dict(engine="wire-explorer", technique='exhaustive product of operations x hostile argument strings; strict RFC 5804 command parser on the captured bytes',
-                   text="every string up to the length bound over a hostile alphabet plus look-alikes in every argument position; the bytes written must parse as exactly one command of the intended verb decoding to the caller's values",
-                   note=_WIRE_NOTE, design_ref='3 C08')
-BUILT["C09"] = dict(engine="wire-explorer", technique='exhaustive product of operations x status reply shapes + single NO/BYE fault at each step of multi-step operations',
-                   text='9 operations x 105 status reply shapes; NO/BYE at each step of connect (with/without STARTTLS) and emulated rename; result, errcode, errmsg and exception class are judged against the reply',
-                   note=_WIRE_NOTE, design_ref='3 C09')
-BUILT["C10"] = dict(engine="wire-explorer", technique='exhaustive call histories over introspected public API x handshake fault placements x capability sets; monitor automaton over plain/TLS write logs',
-                   text='every public method before connect, after connect and after a second connect, under every single (thorough: pair of) handshake fault, TLS wrap failure and capability set; no script verb without AUTHENTICATE OK on that connection, no AUTHENTICATE before TLS',
-                   note=_WIRE_NOTE, design_ref='3 C10')
-BUILT["C14"] = dict(engine="wire-explorer", technique='exhaustive product of initial stores x fault placements x bodies against an executable reference server; store-level invariant',
-                   text="19 initial stores x 6 bodies x every single (thorough: pair of) fault on the five verbs of the emulation; the reference server's store before/after is judged (nothing lost, nothing else touched, True implies renamed)",
-                   note=_WIRE_NOTE, design_ref='3 C14')
-BUILT["C15"] = dict(engine="wire-explorer", technique='explicit-state BFS over operation histories (state = reference server store) x deviation-bounded DFS over server choices and recv cuts',
-                   text="all histories of 16 events to depth 3/4 from 3 stores with and without VERSION; every server choice (encodings, quota/NO outcomes, recv cuts) up to 1/2 deviations; each result must equal the reference server's own answer, no unread bytes, no protocol violation",
-                   note=_WIRE_NOTE, design_ref='3 C15')
-BUILT["C16"] = dict(engine="wire-explorer", technique='exhaustive product of announced SASL lists x authmech x credentials x verdict; payload decoded and recomputed per mechanism RFC',
-                   text='all subsets/orders of 5 mechanisms x 7 authmech arguments x 6 credential triples x OK/NO; mechanism selection rule, decoded PLAIN/LOGIN/OAUTHBEARER payloads and the recomputed RFC 2831 response are compared',
-                   note=_WIRE_NOTE, design_ref='3 C16')
-BUILT["C17"] = dict(engine="wire-explorer", technique="exhaustive product of look-alike bodies / name sets x every permitted encoding against the reference server's store",
-                   text='every body of <= 2/3 lines over the look-alike pool x line endings x final newline x literal/quoted; every set of <= 2/3 names x active position x every per-name encoding',
-                   note=_WIRE_NOTE, design_ref='3 C17')
-
-_FACTORY_NOTE = 'trusted base: reference list model / reference Sieve validator in /verif/mc (factory_engine.py, refsieve), CPython; bounded: history depth, definition pool, value alphabets'
-BUILT["C06"] = dict(engine='filterset-explorer', technique='exhaustive product of definition kinds x hostile values + explicit-state BFS over editing histories; reference strict validator and structure-preservation oracle',
-                   text='every condition/action kind (all fileinto tag orders, all vacation tag subsets) x every value up to the length bound; the script must be accepted, strictly valid, begin with a covering require, and keep the structure of the benign-value script with every literal decoding to the supplied value; histories over a rich pool for the require line',
-                   note=_FACTORY_NOTE, design_ref='3 C06')
-BUILT["C11"] = dict(engine='filterset-explorer', technique='explicit-state BFS over editing histories + exhaustive product of names/descriptions x marker pairs; save/load differential',
-                   text='every reachable set (history depth bound) and every name/description up to the length bound is rendered, parsed, reloaded and compared; the reloaded rendering must be a fixed point',
-                   note=_FACTORY_NOTE, design_ref='3 C11')
-BUILT["C12"] = dict(engine='filterset-explorer', technique='all operation sequences up to a bound without dedup + BFS with dedup over the real FiltersSet vs reference list model',
-                   text='every sequence of <= 3/4 of 55 events and a deduplicated BFS to depth 7/12; after every event return value, order, flags, is_filter_disabled, wrapper structure and getfilter content are compared with the list model',
-                   note=_FACTORY_NOTE, design_ref='3 C12')
-BUILT["C13"] = dict(engine='parser-state-explorer', technique='exhaustive histories over an object pool; differential vs pristine forked interpreters',
-                   text='every history of <= 3/4 events on two reused parsers, fresh parsers and two FiltersSets; each outcome is compared with the projection onto the same object run in a freshly forked pristine interpreter',
-                   note=_FACTORY_NOTE, design_ref='3 C13')
-BUILT["C19"] = dict(engine='filterset-explorer', technique='exhaustive product of supported forms x values with commas/spaces/brackets/non-ASCII; read-back differential on original / disabled / reloaded sets',
-                   text='every supported condition and action form x every value up to the length bound x anyof/allof; get_filter_conditions/actions/matchtype must equal what was supplied on the original, the disabled and the reloaded set',
-                   note=_FACTORY_NOTE, design_ref='3 C19')
 
 NOT_BUILT = {}
